@@ -6,7 +6,7 @@
 import BibVerif.Model
 namespace Bib
 
-structure Lib where
+structure KLib where
   /-- `_blocks` in order -/
   blocks : List Block := []
   /-- `_entries_by_key` -/
@@ -28,7 +28,7 @@ def castToDuplicate (prev dup : Live) : Except PyErr Block :=
   | none => .error .assertion
 
 /-- `self._add_to_dicts(block)` followed by `self._blocks.append(block)` -/
-def addOne (L : Lib) (b : Block) : Except PyErr Lib :=
+def addOne (L : KLib) (b : Block) : Except PyErr KLib :=
   match b with
   | .live (.entry e) =>
     match L.eidx.lookup e.key with
@@ -44,12 +44,12 @@ def addOne (L : Lib) (b : Block) : Except PyErr Lib :=
     | none => pure { L with blocks := L.blocks ++ [b], sidx := L.sidx ++ [(k, .string k v l r m)] }
   | _ => pure { L with blocks := L.blocks ++ [b] }
 
-def addMany (L : Lib) : List Block → Except PyErr Lib
+def addMany (L : KLib) : List Block → Except PyErr KLib
   | [] => pure L
   | b :: bs => do addMany (← addOne L b) bs
 
 /-- `Library(blocks)` -/
-def libraryOf (bs : List Block) : Except PyErr Lib := addMany {} bs
+def libraryOfE (bs : List Block) : Except PyErr KLib := addMany {} bs
 
 /-! ### the specification the theorems compare with -/
 
